@@ -170,8 +170,8 @@ pub fn node_stream(seed: u64, histories: usize, cfg: Cfg) -> Sink {
                     1 => format!("msg {p} h= d= b={k}:{} w=N", k * 100),
                     _ => format!("msg {p} h={k} d= b= w=N"),
                 };
-                for o in [Some(format!("get {k} 1")), None, Some("@missall".to_string()), None, Some(format!("msg {p} h={k} d= b= w=N")), None, Some(format!("sending {p} ready")), None,
-                          Some(second), Some("tick 30000".to_string()), Some(format!("sending {p} ready")), None, Some(format!("sending {p} ready")), None] {
+                for o in [Some(format!("get {k} 1")), None, Some("@missall".to_string()), None, Some(format!("msg {p} h={k} d= b= w=N")), None, Some(format!("@ready {p}")), None,
+                          Some(second), Some("tick 30000".to_string()), Some(format!("@ready {p}")), None, Some(format!("@ready {p}")), None] {
                     script.push_back(o);
                 }
                 sink.count("node.scripted-exchange");
@@ -188,6 +188,14 @@ pub fn node_stream(seed: u64, histories: usize, cfg: Cfg) -> Sink {
                     sink.push(format!("n {op}"), out, "-".into());
                 }
                 scripted = Some(None);
+            }
+            if let Some(Some(sop)) = &scripted {
+                if let Some(p) = sop.strip_prefix("@ready ") {
+                    // the handler of the connection the transmission is tracked on reports `Ready`
+                    let p: u64 = p.parse().unwrap();
+                    let src = view.handshake.remove(&p).map(|(c, _)| c).unwrap_or(0);
+                    scripted = Some(Some(format!("sending {p} {src} ready")));
+                }
             }
             let r = if want_drain || scripted.is_some() { 0 } else { rng.below(100) };
             want_drain = false;
@@ -278,6 +286,21 @@ pub fn node_stream(seed: u64, histories: usize, cfg: Cfg) -> Sink {
                     w
                 ))
             } else if r < 92 {
+                if (view.handshake.is_empty() || rng.chance(1, 8)) && !view.conns.is_empty() {
+                    // a report that belongs to no transmission the behaviour tracks: a late report of
+                    // an earlier (given-up or finished) transmission, from any connection
+                    let ps: Vec<u64> = view.conns.keys().copied().collect();
+                    let p = *rng.pick(&ps);
+                    let cs: Vec<u64> = view.conns[&p].iter().copied().collect();
+                    let src = if cs.is_empty() || rng.chance(1, 4) { view.next_conn + 1 } else { *rng.pick(&cs) };
+                    let st = rng.pick(&["ready".to_string(), format!("received:{src}"), format!("failed:{src}"), format!("sending:{src}")]).clone();
+                    sink.count("node.sending.untracked");
+                    let op = format!("sending {p} {src} {st}");
+                    let out = ex.exec(&op);
+                    absorb(&mut view, &out);
+                    sink.push(format!("n {op}"), out, "-".into());
+                    continue;
+                }
                 if view.handshake.is_empty() {
                     continue;
                 }
@@ -285,24 +308,30 @@ pub fn node_stream(seed: u64, histories: usize, cfg: Cfg) -> Sink {
                 let p = *rng.pick(&ps);
                 let (c, stage) = view.handshake[&p];
                 let roll = rng.below(20);
-                let (st, next) = if roll < 15 {
+                let mut src = c;
+                let (st, next) = if roll < 14 {
                     match stage {
                         0 => (format!("received:{c}"), Some((c, 1))),
                         1 => (format!("sending:{c}"), Some((c, 2))),
                         _ => ("ready".to_string(), None),
                     }
-                } else if roll < 18 {
+                } else if roll < 16 {
                     (format!("failed:{c}"), None)
+                } else if roll < 18 {
+                    // out of order report of the connection the transmission is tracked on
+                    (rng.pick(&["ready".to_string(), format!("received:{c}"), format!("sending:{c}")]).clone(), Some((c, stage)))
                 } else {
-                    // out of order / stale report
-                    (rng.pick(&["ready".to_string(), format!("received:{}", c + 1), format!("failed:{}", c + 1), format!("sending:{c}")]).clone(), Some((c, stage)))
+                    // stale report: the handler of another connection (given up earlier) reports
+                    src = if c > 1 && rng.chance(1, 2) { c - 1 } else { c + 1 };
+                    sink.count("node.sending.stale-source");
+                    (rng.pick(&["ready".to_string(), format!("received:{src}"), format!("failed:{src}"), format!("sending:{src}")]).clone(), Some((c, stage)))
                 };
                 match next {
                     Some(n) => { view.handshake.insert(p, n); }
                     None => { view.handshake.remove(&p); }
                 }
                 sink.count(&format!("node.sending.{}", st.split(':').next().unwrap()));
-                Some(format!("sending {p} {st}"))
+                Some(format!("sending {p} {src} {st}"))
             } else if r < 97 {
                 let ms = *rng.pick(&[1u64, 10, 500, 999, 1000, 1001, 5000, 29000, 30000, 31000]);
                 sink.count("node.tick");
